@@ -29,6 +29,12 @@ func (nb *nativeBuild) cleanup() {
 
 // buildNative compiles one test binary per harness package directory.
 func buildNative(repo string, ld *loaded, tags string) (*nativeBuild, error) {
+	return buildNativeOpt(repo, ld, tags, false)
+}
+
+// buildNativeOpt: race = build the replay binaries with the Go race detector (confirmation of
+// lockset violations: the stress loop of the harness runs until the detector reports).
+func buildNativeOpt(repo string, ld *loaded, tags string, race bool) (*nativeBuild, error) {
 	t0 := time.Now()
 	tmp, err := os.MkdirTemp("", "gsx-replay-")
 	if err != nil {
@@ -64,6 +70,9 @@ func buildNative(repo string, ld *loaded, tags string) (*nativeBuild, error) {
 		os.WriteFile(ovPath, ovb, 0o644)
 		bin := filepath.Join(tmp, fmt.Sprintf("replay_%d.test", i))
 		args := []string{"test", "-c", "-vet=off", "-overlay", ovPath, "-o", bin}
+		if race {
+			args = append(args, "-race")
+		}
 		// never let the build touch the repository's go.mod / go.sum (a harness importing an
 		// indirect dependency would otherwise get it rewritten under -mod=mod): work on copies
 		if mf := privateModfile(repo, tmp); mf != "" {
@@ -171,6 +180,8 @@ func labelHead(l string) string {
 // reproduced decides whether a native run shows the violation.
 func reproduced(v *violation, nr *nativeRun) bool {
 	switch v.Kind {
+	case "race":
+		return strings.Contains(nr.Raw, "WARNING: DATA RACE")
 	case "panic":
 		return nr.Panic != ""
 	case "wedge":
